@@ -796,6 +796,9 @@ void run_case(Choices &c, Ctx &ctx)
 		Val inner = Val::obj();
 		inner.set("x/y", Val::arr());
 		inner.set("n", Val::i64(1));
+		// member counts around the table growth thresholds (12th, 23rd member): the new member then needs a resize
+		for (size_t i = 0, nf = c.coin(50) ? (c.coin(50) ? 8 : 19) + c.pickn(4) : c.pickn(30); i < nf; i++)
+			inner.set("f" + str(i), Val::i64((int64_t)i));
 		w.tree.set("a", inner);
 		w.tree.set("arr", Val::arr());
 		for (size_t i = 0, n = c.range(0, 33); i < n; i++)
@@ -814,7 +817,12 @@ void run_case(Choices &c, Ctx &ctx)
 			w.tree.find("foo")->a.push_back(Val::str("e" + str(i)));
 		Val bar = Val::obj();
 		bar.set("a/b", Val::i64(1));
+		for (size_t i = 0, nf = c.coin(50) ? (c.coin(50) ? 9 : 20) + c.pickn(4) : c.pickn(30); i < nf; i++)
+			bar.set("f" + str(i), Val::i64((int64_t)i));
 		w.tree.set("bar", bar);
+		// the same for the root object
+		for (size_t i = 0, nf = c.coin(30) ? (c.coin(50) ? 7 : 18) + c.pickn(4) : 0; i < nf; i++)
+			w.tree.set("r" + str(i), Val::null());
 		static const char *ops[] = {"{\"op\":\"add\",\"path\":\"/foo/-\",\"value\":{\"deep\":[1,2,{\"x\":\"y\"}]}}",
 		                            "{\"op\":\"remove\",\"path\":\"/bar/a~1b\"}",
 		                            "{\"op\":\"replace\",\"path\":\"/bar\",\"value\":[1,2,3]}",
